@@ -190,6 +190,31 @@ func (e *Engine) verifyFunc(key string, against *FuncContract, prefix string) (r
 		return
 	}
 	x.entryEnv = env
+	// every anchor must bind to a program point: a clause that binds nowhere would be vacuously "proved"
+	nret := 0
+	for _, b := range fn.Blocks {
+		if b == fn.Recover {
+			continue
+		}
+		for _, in := range b.Instrs {
+			if _, ok := in.(*ssa.Return); ok {
+				nret++
+			}
+		}
+	}
+	for i := range fc.Anchors {
+		ac := &fc.Anchors[i]
+		switch ac.At {
+		case "return":
+			if ac.K < 1 || ac.K > nret {
+				x.fail("anchor [%s] of %s: there is no return %d (the function has %d)", ac.Clause.Label, key, ac.K, nret)
+			}
+		case "call":
+			if x.anchorTarget(fn, ac) == nil {
+				x.fail("anchor [%s] of %s: there is no call #%d of %q", ac.Clause.Label, key, ac.K, ac.Callee)
+			}
+		}
+	}
 	x.against = against != nil
 	_, st, reach := x.run(fn, args, nil, x.old.clone(), "true", true, fn.Pos())
 	x.curPos = fn.Pos()
